@@ -183,3 +183,81 @@ func RenameOverlay(pkgs map[string]*packages.Package, fset *token.FileSet, read 
 	sort.Strings(notes)
 	return out, notes
 }
+
+// DeadHelperOverlay blanks out unexported functions and methods that are not in
+// the recorded table and that nothing in their package refers to any more -
+// typically a freshly extracted helper every call of which has just been
+// inlined. Left in place, such a function is a caller-less entry into the code
+// it calls: its unconstrained parameters spoil interprocedural facts (every
+// binding of a callee's parameter is non-negative, bounded ...). Removing dead
+// code changes no behaviour. Line numbers are kept (the declaration is replaced
+// by as many line breaks as it had).
+func DeadHelperOverlay(pkgs map[string]*packages.Package, fset *token.FileSet, read func(string) ([]byte, error)) (map[string][]byte, []string) {
+	out := map[string][]byte{}
+	var notes []string
+	for _, path := range []string{PkgGts, PkgSeqio, PkgCache, PkgMain} {
+		pk := pkgs[path]
+		if pk == nil || pk.TypesInfo == nil || len(pk.Syntax) != len(pk.CompiledGoFiles) {
+			continue
+		}
+		used := map[types.Object]bool{}
+		for _, f := range pk.Syntax {
+			ast.Inspect(f, func(n ast.Node) bool {
+				if id, ok := n.(*ast.Ident); ok {
+					if o := pk.TypesInfo.Uses[id]; o != nil {
+						used[o] = true
+					}
+				}
+				return true
+			})
+		}
+		for i, f := range pk.Syntax {
+			name := pk.CompiledGoFiles[i]
+			var dead []*ast.FuncDecl
+			for _, d := range f.Decls {
+				fd, ok := d.(*ast.FuncDecl)
+				if !ok || fd.Name.IsExported() || fd.Name.Name == "init" || fd.Name.Name == "main" || fd.Name.Name == "_" {
+					continue
+				}
+				if _, recorded := baselineSigs[path+" "+funcKey(fd)]; recorded {
+					continue
+				}
+				obj := pk.TypesInfo.Defs[fd.Name]
+				if obj == nil || used[obj] {
+					continue
+				}
+				if fd.Recv != nil {
+					continue // a method may satisfy an interface without being named anywhere
+				}
+				dead = append(dead, fd)
+			}
+			if len(dead) == 0 {
+				continue
+			}
+			src, err := read(name)
+			if err != nil {
+				continue
+			}
+			src = append([]byte(nil), src...)
+			for _, fd := range dead {
+				start := fd.Pos()
+				if fd.Doc != nil {
+					start = fd.Doc.Pos()
+				}
+				a, b := fset.Position(start), fset.Position(fd.End())
+				if a.Filename != name || a.Offset < 0 || b.Offset > len(src) || a.Offset > b.Offset {
+					continue
+				}
+				for k := a.Offset; k < b.Offset; k++ {
+					if src[k] != '\n' {
+						src[k] = ' '
+					}
+				}
+				notes = append(notes, fmt.Sprintf("%s.%s is new and no longer referenced: removed", Short(path), funcKey(fd)))
+			}
+			out[name] = src
+		}
+	}
+	sort.Strings(notes)
+	return out, notes
+}
